@@ -1,6 +1,7 @@
 ---------------------------- MODULE TraceResolverCache ----------------------------
 (* Trace validation for ResolverCache under real concurrency: lookups of one key by up to 16 goroutines, upstream
-   queries seen by the DoH server, environment steps at barriers; all logged under one mutex. *)
+   queries seen by the DoH server, environment steps at barriers, the ends of callers' contexts; all logged under one
+   mutex. The steps inside a lookup (map access, locks, re-check, store) are not logged: TLC infers them. *)
 EXTENDS ResolverCache, Json, IOUtils
 
 Trace == ndJsonDeserialize(IOEnv.TRACE_FILE)
@@ -13,20 +14,27 @@ Has == l <= Len(Trace)
 TtlsOf(sc) == [k \in Keys |-> [g \in 0..MaxGen |-> IF k = "n1" THEN sc.ttls[g + 1] ELSE <<2>>]]
 InitWith(sc) ==
   /\ now = 0 /\ up = TRUE /\ ttls = TtlsOf(sc) /\ gen = [k \in Keys |-> 0]
-  /\ cache = [k \in Keys |-> None] /\ wlock = [k \in Keys |-> 0]
-  /\ pc = [g \in Gs |-> "idle"] /\ key = [g \in Gs |-> "n1"] /\ got = [g \in Gs |-> None]
-  /\ fetched = [g \in Gs |-> None] /\ upq = [g \in Gs |-> FALSE] /\ missed = [g \in Gs |-> FALSE] /\ last = [g \in Gs |-> None]
+  /\ nobj = 0 /\ objs = [o \in {} |-> None] /\ okey = [o \in {} |-> None] /\ olock = [o \in {} |-> 0]
+  /\ cache = [k \in Keys |-> 0]
+  /\ pc = [g \in Gs |-> "idle"] /\ key = [g \in Gs |-> "n1"] /\ ent = [g \in Gs |-> 0] /\ got = [g \in Gs |-> None]
+  /\ fetched = [g \in Gs |-> None] /\ upq = [g \in Gs |-> FALSE] /\ upqAt = [g \in Gs |-> 0] /\ hit = [g \in Gs |-> -1]
+  /\ cancelled = [g \in Gs |-> FALSE] /\ last = [g \in Gs |-> None]
 TraceInit == l = 2 /\ InitWith(Trace[1].scen)
 
-Silent == (\E g \in Gs : FastRead(g) \/ Lock(g) \/ Recheck(g) \/ Store(g) \/ Abandon(g) \/ AbandonPrivate(g)) /\ UNCHANGED l
+Silent == (\E g \in Gs : Get(g) \/ Add(g) \/ FastRead(g) \/ Lock(g) \/ Recheck(g) \/ Store(g) \/ Abandon(g)) /\ UNCHANGED l
 ObsStart == Has /\ Ev.e = "start" /\ Call(Ev.g, Ev.k) /\ l' = l + 1
 ObsUpq == /\ Has /\ Ev.e = "upq" /\ up = Ev.up /\ gen[Ev.k] = Ev.gen
-          /\ \E g \in Gs : key[g] = Ev.k /\ (Fetch(g) \/ PrivateFetch(g))
+          /\ \E g \in Gs : key[g] = Ev.k /\ Fetch(g)
           /\ l' = l + 1
 ObsEnd == /\ Has /\ Ev.e = "end"
           /\ Return(Ev.g) /\ got[Ev.g].kind = Ev.kind
           /\ (Ev.gen >= 0 => got[Ev.g].gen = Ev.gen)
           /\ l' = l + 1
+\* the end of a caller's context, logged before it takes effect (a lookup that has already returned is not affected)
+ObsCancel == /\ Has /\ Ev.e = "cancel"
+             /\ \/ Cancel(Ev.g)
+                \/ (pc[Ev.g] = "idle" \/ cancelled[Ev.g]) /\ UNCHANGED vars
+             /\ l' = l + 1
 ObsAdvance == Has /\ Ev.e = "advance" /\ Advance /\ l' = l + 1
 ObsChange == Has /\ Ev.e = "change" /\ Change(Ev.k) /\ l' = l + 1
 ObsToggle == Has /\ Ev.e = "toggle" /\ Toggle /\ l' = l + 1
@@ -34,11 +42,13 @@ ObsFin == Has /\ Ev.e = "fin" /\ (\A g \in Gs : pc[g] = "idle") /\ l' = l + 1 /\
 ObsReset ==
   /\ Has /\ Ev.e = "reset" /\ Trace[l-1].e = "fin"
   /\ now' = 0 /\ up' = TRUE /\ ttls' = TtlsOf(Ev.scen) /\ gen' = [k \in Keys |-> 0]
-  /\ cache' = [k \in Keys |-> None] /\ wlock' = [k \in Keys |-> 0]
-  /\ pc' = [g \in Gs |-> "idle"] /\ key' = [g \in Gs |-> "n1"] /\ got' = [g \in Gs |-> None]
-  /\ fetched' = [g \in Gs |-> None] /\ upq' = [g \in Gs |-> FALSE] /\ missed' = [g \in Gs |-> FALSE] /\ last' = [g \in Gs |-> None]
+  /\ nobj' = 0 /\ objs' = [o \in {} |-> None] /\ okey' = [o \in {} |-> None] /\ olock' = [o \in {} |-> 0]
+  /\ cache' = [k \in Keys |-> 0]
+  /\ pc' = [g \in Gs |-> "idle"] /\ key' = [g \in Gs |-> "n1"] /\ ent' = [g \in Gs |-> 0] /\ got' = [g \in Gs |-> None]
+  /\ fetched' = [g \in Gs |-> None] /\ upq' = [g \in Gs |-> FALSE] /\ upqAt' = [g \in Gs |-> 0] /\ hit' = [g \in Gs |-> -1]
+  /\ cancelled' = [g \in Gs |-> FALSE] /\ last' = [g \in Gs |-> None]
   /\ l' = l + 1
-TraceNext == Silent \/ ObsStart \/ ObsUpq \/ ObsEnd \/ ObsAdvance \/ ObsChange \/ ObsToggle \/ ObsFin \/ ObsReset
+TraceNext == Silent \/ ObsStart \/ ObsUpq \/ ObsEnd \/ ObsCancel \/ ObsAdvance \/ ObsChange \/ ObsToggle \/ ObsFin \/ ObsReset
 \* unlogged (silent) steps make the search branch: stop as soon as one explanation of the whole trace is found
 HighWater == /\ TLCSet(1, IF TLCGet(1) > l THEN TLCGet(1) ELSE l)
              /\ (l = Len(Trace) + 1 => TLCSet("exit", TRUE))
